@@ -649,7 +649,7 @@ func (f *frame) loopHeader(b *ssa.BasicBlock, li *loopInfo, reach Term, preds []
 	allocBefore := entrySt.get("$alloc", SBV64)
 	// havoc
 	if vc.pass == 1 {
-		f.st = vc.havocAll(entrySt)
+		f.st = vc.havocAllQuiet(entrySt)
 	} else {
 		mods := vc.loopMods[f.prefix+li.key]
 		if mods["*"] {
@@ -756,6 +756,7 @@ func (f *frame) block(b *ssa.BasicBlock) {
 			}
 			f.rets = append(f.rets, retRec{reach: vc.reach, results: rs, st: f.st, instr: x})
 			if f.top {
+				vc.exitReach = append(vc.exitReach, vc.reach)
 				f.checkPost(x, rs)
 			}
 		case *ssa.Panic:
